@@ -1,3 +1,760 @@
 package main
 
-func c20GenBlindRot(c *Ctx) {}
+// C20, blind rotation part: drives blindrot.GenEvaluationKeyNew, blindrot.InitTestPolynomial and
+// blindrot.Evaluator.Evaluate on small parameters (LWE ring degree <= blind-rotation ring degree).
+//
+// Ties: rgsw_enc (every blind-rotation key from the replayed samples), testpoly, br_keyset,
+//       br_sched (the sequence of automorphisms / external products the evaluator REALLY performs, captured
+//       by a logging key set, against the model's schedule computed from the raw LWE sample),
+//       br_eval (the output ciphertexts, exactly).
+// Probes: brk_keys_exact, testpoly_table, blindrot_exponent, blindrot_lookup.
+
+import (
+	"fmt"
+	"math"
+	"math/big"
+	"sort"
+	"strings"
+
+	"github.com/tuneinsight/lattigo/v6/core/rgsw"
+	"github.com/tuneinsight/lattigo/v6/core/rgsw/blindrot"
+	"github.com/tuneinsight/lattigo/v6/core/rlwe"
+	"github.com/tuneinsight/lattigo/v6/ring"
+	"github.com/tuneinsight/lattigo/v6/utils"
+)
+
+// ---------- logging key set ----------
+
+type c20EvkLog struct {
+	inner rlwe.EvaluationKeySet
+	log   *[]string
+}
+
+func (l c20EvkLog) GetGaloisKey(galEl uint64) (*rlwe.GaloisKey, error) {
+	*l.log = append(*l.log, fmt.Sprintf("a%d", galEl))
+	return l.inner.GetGaloisKey(galEl)
+}
+func (l c20EvkLog) GetGaloisKeysList() []uint64 { return l.inner.GetGaloisKeysList() }
+func (l c20EvkLog) ShallowCopy() rlwe.EvaluationKeySet {
+	return c20EvkLog{inner: l.inner.ShallowCopy(), log: l.log}
+}
+func (l c20EvkLog) GetRelinearizationKey() (*rlwe.RelinearizationKey, error) {
+	*l.log = append(*l.log, "relin")
+	return l.inner.GetRelinearizationKey()
+}
+
+type c20BRKLog struct {
+	inner blindrot.BlindRotationEvaluationKeySet
+	log   *[]string
+}
+
+func (l c20BRKLog) GetBlindRotationKey(i int) (*rgsw.Ciphertext, error) {
+	*l.log = append(*l.log, fmt.Sprintf("m%d", i))
+	return l.inner.GetBlindRotationKey(i)
+}
+func (l c20BRKLog) GetEvaluationKeySet() (rlwe.EvaluationKeySet, error) {
+	*l.log = append(*l.log, "evk")
+	evk, err := l.inner.GetEvaluationKeySet()
+	return c20EvkLog{inner: evk, log: l.log}, err
+}
+
+// ---------- functions ----------
+
+type c20Fn struct {
+	name string
+	f    func(x float64) float64
+	a, b float64
+	odd  bool // f(b) = -f(a): the right end point is representable
+}
+
+func c20Sign(x float64) float64 {
+	if x > 0 {
+		return 1
+	} else if x == 0 {
+		return 0
+	}
+	return -1
+}
+
+func c20Functions(c *Ctx, N int) []c20Fn {
+	tab := make([]float64, N+1)
+	for i := range tab {
+		tab[i] = float64(int64(c.rng.Intn(2001))-1000) / 1000.0
+	}
+	table := func(x float64) float64 {
+		k := int(math.Round((x + 1) * float64(N) / 2))
+		if k < 0 {
+			k = 0
+		}
+		if k > N {
+			k = N
+		}
+		return tab[k]
+	}
+	return []c20Fn{
+		{"sign", c20Sign, -1, 1, true},
+		{"identity", func(x float64) float64 { return x }, -1, 1, true},
+		{"table", table, -1, 1, false},
+		{"affine04", func(x float64) float64 { return x/4 - 0.25 }, 0, 4, false},
+	}
+}
+
+// ---------- configurations ----------
+
+type c20BRCfg struct {
+	logNBR, logNLWE int
+	bitsQ           []int
+	bitsP           []int
+	w               int
+	bitsLWE         []int
+	hw              int
+}
+
+func c20BRConfigs(c *Ctx) (out []c20BRCfg) {
+	// rlwe.MinLogN = 4: the smallest LWE ring has degree 16
+	if !c.Thorough() {
+		return []c20BRCfg{
+			{4, 4, []int{27}, []int{40}, 7, []int{14}, 2},
+			{5, 4, []int{27}, []int{40}, 7, []int{14}, 5},
+			{4, 4, []int{30}, []int{41}, 0, []int{14}, 3},
+			{4, 4, []int{27}, nil, 7, []int{14}, 2}, // the shape of blindrot_test.go: no auxiliary modulus
+			{4, 4, []int{28, 30}, []int{40, 41}, 0, []int{13}, 1},
+		}
+	}
+	for _, hw := range []int{0, 1, 2, 4, 8, 16} {
+		out = append(out, c20BRCfg{4, 4, []int{27}, []int{40}, 7, []int{14}, hw})
+	}
+	for _, hw := range []int{1, 3, 16} {
+		out = append(out, c20BRCfg{5, 4, []int{30}, []int{41}, 0, []int{14}, hw})
+	}
+	for _, w := range []int{4, 12, 16, 20} {
+		out = append(out, c20BRCfg{4, 4, []int{30}, []int{42}, w, []int{14}, 3})
+	}
+	out = append(out,
+		c20BRCfg{4, 4, []int{27}, nil, 7, []int{14}, 2},
+		c20BRCfg{4, 4, []int{27}, nil, 0, []int{14}, 2},
+		c20BRCfg{4, 4, []int{30, 31}, nil, 12, []int{14}, 2},
+		c20BRCfg{4, 4, []int{28, 30}, []int{40, 41}, 0, []int{13}, 2},
+		c20BRCfg{5, 4, []int{27}, []int{40}, 7, []int{14, 15}, 4},
+		c20BRCfg{5, 5, []int{29, 33}, []int{41}, 12, []int{16}, 6},
+		c20BRCfg{6, 4, []int{27}, []int{40}, 7, []int{14}, 5},
+	)
+	return
+}
+
+func c20PolysList(l [][][][]uint64) string {
+	parts := make([]string, len(l))
+	for i := range l {
+		parts[i] = c20Polys(l[i])
+	}
+	return strings.Join(parts, "|")
+}
+
+// c20GaloisKeyPolys flattens a Galois key: component 0 list, component 1 list, (i, j) row-major, canonical QP rows.
+func (ps *c20PS) galoisKeyPolys(gk *rlwe.GaloisKey) (c0, c1 [][][]uint64) {
+	lq, lp := gk.LevelQ(), gk.LevelP()
+	for i := range gk.Value {
+		for j := range gk.Value[i] {
+			c0 = append(c0, ps.canonQP(gk.Value[i][j][0], lq, lp, true, true))
+			c1 = append(c1, ps.canonQP(gk.Value[i][j][1], lq, lp, true, true))
+		}
+	}
+	return
+}
+
+func c20ModSwitch(x, Q *big.Int, twoN uint64, makeOdd bool) uint64 {
+	t := new(big.Int).Mul(x, new(big.Int).SetUint64(twoN))
+	// round half up (x >= 0)
+	t.Lsh(t, 1)
+	t.Add(t, Q)
+	t.Div(t, new(big.Int).Lsh(Q, 1))
+	r := t.Uint64() & (twoN - 1)
+	if makeOdd && r&1 == 0 && r != 0 {
+		r ^= 1
+	}
+	return r
+}
+
+func c20GenBlindRot(c *Ctx) {
+	pg := newC20PrimeGen()
+	requestedUnion := map[string]map[uint64]bool{}
+	for ci, cfg := range c20BRConfigs(c) {
+		nthBR := uint64(2 << cfg.logNBR)
+		var Q, P, QL []uint64
+		for _, b := range cfg.bitsQ {
+			Q = append(Q, pg.next(b, nthBR, -1))
+		}
+		for _, b := range cfg.bitsP {
+			P = append(P, pg.next(b, nthBR, 0))
+		}
+		for _, b := range cfg.bitsLWE {
+			QL = append(QL, pg.next(b, uint64(2<<cfg.logNLWE), -1))
+		}
+		psBR, err := c20NewPS(cfg.logNBR, Q, P)
+		if err != nil {
+			c.Count("br:params-rejected")
+			continue
+		}
+		psL, err := c20NewPS(cfg.logNLWE, QL, nil)
+		if err != nil {
+			c.Count("br:params-rejected")
+			continue
+		}
+		N, NL := psBR.N(), psL.N()
+		twoN := uint64(2 * N)
+		lq, lp, w := len(Q)-1, len(P)-1, cfg.w
+		c.Count(fmt.Sprintf("br:cfg NBR=%d NLWE=%d nQ=%d nP=%d w=%d hw=%d", N, NL, len(Q), len(P), w, cfg.hw))
+
+		kgenL := rlwe.NewKeyGenerator(psL.params)
+		var skL *rlwe.SecretKey
+		if cfg.hw >= NL {
+			skL = kgenL.GenSecretKeyNew()
+		} else if cfg.hw == 0 {
+			skL = rlwe.NewSecretKey(psL.params)
+		} else {
+			skL = kgenL.GenSecretKeyWithHammingWeightNew(cfg.hw)
+		}
+		sL := psL.secretInts(skL)
+		skBR := rlwe.NewKeyGenerator(psBR.params).GenSecretKeyNew()
+		sBR := psBR.secretInts(skBR)
+
+		// ---- key generation, twin replay of the RGSW keys ----
+		evkParams := rlwe.EvaluationKeyParameters{BaseTwoDecomposition: utils.Pointy(w)}
+		mark := RandMark()
+		BRK := blindrot.GenEvaluationKeyNew(psBR.params, skBR, psL.params, skL, evkParams)
+		keys := RandKeysSince(mark)
+		tw := psBR.twinFromKey(keys[0])
+		par := c20ParTokens(psBR, lq, lp, w)
+		for i, k := range BRK.BlindRotationKeys {
+			A0, A1, E0, E1 := tw.replayRGSW(lq, lp, c20Shape(k), true)
+			g := make([]int64, N)
+			switch sL[i] {
+			case 1:
+				g[1] = 1
+			case -1:
+				g[N-1] = -1
+			default:
+				g[0] = 1
+			}
+			if !probesOnly() && (i < 3 || c.Thorough()) {
+				c.Emit(fmt.Sprintf("rgsw_enc %s mode=api s=%s g=%s a0=%s e0=%s a1=%s e1=%s", par, c20I64Vec(sBR),
+					Mat(psBR.rowsFromInts(g, lq)), c20Polys(A0), c20IVecs(E0), c20Polys(A1), c20IVecs(E1)),
+					IVec(c20Shape(k))+"|"+c20RGSWOut(psBR.rgswPolys(k)))
+			}
+		}
+		// ---- advertised key set ----
+		evk0, _ := BRK.GetEvaluationKeySet()
+		adv := append([]uint64{}, evk0.GetGaloisKeysList()...)
+		sort.Slice(adv, func(i, j int) bool { return adv[i] < adv[j] })
+		c.Emit(fmt.Sprintf("br_keyset n=%d nl=%d", N, NL), fmt.Sprintf("%s|%d", Vec(adv), len(BRK.BlindRotationKeys)))
+		advSet := map[uint64]bool{}
+		for _, g := range adv {
+			advSet[g] = true
+		}
+
+		// ---- test polynomials ----
+		fns := c20Functions(c, N)
+		ringQBR := psBR.params.RingQ()
+		type tp struct {
+			fn    c20Fn
+			poly  ring.Poly
+			rows  [][]uint64
+			scale float64
+		}
+		var tps []tp
+		for _, fn := range fns {
+			scale := float64(Q[0]) / 4.0
+			if len(Q) > 1 {
+				scale = float64(Q[0]) * float64(Q[1]) / 16.0
+				if scale > 1e15 {
+					scale = 1e15 // keep scale*value exactly representable for the look-up comparison
+				}
+			}
+			F := blindrot.InitTestPolynomial(fn.f, rlwe.NewScale(scale), ringQBR, fn.a, fn.b)
+			rows := psBR.canonQ(F, lq, true, false)
+			// tie: the float64 values handed to scaleUp
+			interval := 2.0 / float64(N)
+			vals := make([]uint64, N)
+			norm := func(x float64) float64 { return (x*(fn.b-fn.a) + fn.b + fn.a) / 2.0 }
+			for i := 0; i < N; i++ {
+				var v float64
+				if i <= N/2 {
+					v = fn.f(norm(-interval * float64(i)))
+				} else {
+					v = -fn.f(norm(interval * float64(N-i)))
+				}
+				vals[i] = math.Float64bits(v)
+			}
+			c.Emit(fmt.Sprintf("testpoly n=%d Q=%s scale=%d vals=%s", N, Vec(Q), math.Float64bits(scale), Vec(vals)), Mat(rows))
+			c.Count("testpoly:" + fn.name)
+			// probe: the documented layout
+			detail := ""
+			Qb := c20ProdBig(Q)
+			for i := 0; i < N && detail == ""; i++ {
+				var x float64
+				sgn := 1.0
+				if i <= N/2 {
+					x = norm(-interval * float64(i))
+				} else {
+					x = norm(interval * float64(N-i))
+					sgn = -1
+				}
+				want := new(big.Float).Mul(big.NewFloat(scale), big.NewFloat(sgn*fn.f(x)))
+				wi, _ := want.Int(nil)
+				col := make([]uint64, len(Q))
+				for k := range Q {
+					col[k] = rows[k][i]
+				}
+				got := c20CRTCentered(col, Q)
+				d := new(big.Int).Sub(got, wi)
+				d.Mod(d, Qb)
+				if d.Cmp(new(big.Int).Rsh(Qb, 1)) > 0 {
+					d.Sub(d, Qb)
+				}
+				if d.CmpAbs(big.NewInt(1)) > 0 {
+					detail = fmt.Sprintf("coefficient %d is %s, documented %s", i, got, wi)
+				}
+			}
+			c.Probe("testpoly_table", fmt.Sprintf("n=%d fn=%s", N, fn.name), "testpoly-layout", detail)
+			// probe: the documented interval is the CLOSED [a, b]; the exponent N/2 (x = b) reads -F[N/2] = -f(a)
+			{
+				col := make([]uint64, len(Q))
+				for k := range Q {
+					col[k] = rows[k][N/2]
+				}
+				got := new(big.Int).Neg(c20CRTCentered(col, Q))
+				want := new(big.Float).Mul(big.NewFloat(scale), big.NewFloat(fn.f(fn.b)))
+				wi, _ := want.Int(nil)
+				d := new(big.Int).Sub(got, wi)
+				d2 := ""
+				if d.CmpAbs(big.NewInt(1)) > 0 {
+					d2 = fmt.Sprintf("look-up at x=b returns %s, scale*f(b)=%s (fn=%s)", got, wi, fn.name)
+				}
+				c.Probe("testpoly_endpoint", fmt.Sprintf("n=%d fn=%s", N, fn.name), "testpoly-right-endpoint", d2)
+			}
+			tps = append(tps, tp{fn, F, rows, scale})
+		}
+
+		// ---- evaluations ----
+		evalBR := blindrot.NewEvaluator(psBR.params, psL.params)
+		QLb := c20ProdBig(QL)
+		llq := len(QL) - 1
+		// grid points k in [-N/2, N/2], NL of them per LWE sample
+		var grid []int
+		for k := -N / 2; k <= N/2; k++ {
+			grid = append(grid, k)
+		}
+		if !c.Thorough() {
+			// a sample that keeps the end points and the sign change
+			g2 := []int{-N / 2, -N/2 + 1, -1, 0, 1, N/2 - 1, N / 2}
+			for len(g2) < NL {
+				g2 = append(g2, c.rng.Intn(N+1)-N/2)
+			}
+			grid = g2
+		}
+		call := 0
+		for start := 0; start < len(grid); start += NL {
+			ks := make([]int, NL)
+			for i := range ks {
+				ks[i] = grid[(start+i)%len(grid)]
+			}
+			for fi, t := range tps {
+				if !c.Thorough() && (call+fi)%2 == 1 && ci != 0 {
+					continue
+				}
+				// LWE sample: phase_i = k_i * Q/(2N) + e_i
+				mv := make([]*big.Int, NL)
+				for i := range mv {
+					m := new(big.Int).Mul(QLb, big.NewInt(int64(ks[i])))
+					m.Div(m, big.NewInt(int64(twoN))) // floor is fine: an error < 1 of the phase
+					m.Add(m, big.NewInt(int64(c.rng.Intn(3))-1))
+					mv[i] = m
+				}
+				c1 := make([][]uint64, llq+1)
+				for k := range c1 {
+					c1[k] = make([]uint64, NL)
+					for tt := range c1[k] {
+						c1[k][tt] = c.rng.Below(QL[k])
+					}
+				}
+				ctL := psL.mkCt(skL, psL.rowsFromBig(mv, llq), c1)
+				if (call+fi)%3 == 2 {
+					psL.params.RingQ().AtLevel(llq).INTT(ctL.Value[0], ctL.Value[0])
+					psL.params.RingQ().AtLevel(llq).INTT(ctL.Value[1], ctL.Value[1])
+					ctL.IsNTT = false
+				}
+				// slot subsets
+				var idxs []int
+				switch (call + fi) % 4 {
+				case 0, 1:
+					for i := 0; i < NL; i++ {
+						idxs = append(idxs, i)
+					}
+				case 2:
+					for i := 0; i < NL; i++ {
+						if c.rng.Intn(2) == 0 || i == NL-1 {
+							idxs = append(idxs, i)
+						}
+					}
+				default:
+					idxs = []int{c.rng.Intn(NL)}
+				}
+				if c.Thorough() || ci == 0 {
+					idxs = idxs[:0]
+					for i := 0; i < NL; i++ {
+						idxs = append(idxs, i)
+					}
+				}
+				c20BREvaluate(c, psBR, psL, evalBR, BRK, skBR, sBR, sL, ctL, t.fn, t.poly, t.rows, t.scale, ks, idxs, w, cfg, advSet, requestedUnion)
+			}
+			call++
+		}
+	}
+	// coverage of the generated Galois keys by the requests, over the whole run (statistics)
+	for cfgName, m := range requestedUnion {
+		c.Count(fmt.Sprintf("br:requested-galois %s count=%d", cfgName, len(m)))
+	}
+}
+
+func c20CRTCentered(col []uint64, Q []uint64) *big.Int {
+	Qb := c20ProdBig(Q)
+	x := new(big.Int)
+	for k, q := range Q {
+		qb := new(big.Int).SetUint64(q)
+		Qi := new(big.Int).Div(Qb, qb)
+		inv := new(big.Int).ModInverse(Qi, qb)
+		t := new(big.Int).Mul(new(big.Int).SetUint64(col[k]), inv)
+		t.Mod(t, qb)
+		t.Mul(t, Qi)
+		x.Add(x, t)
+	}
+	x.Mod(x, Qb)
+	if x.Cmp(new(big.Int).Rsh(Qb, 1)) > 0 {
+		x.Sub(x, Qb)
+	}
+	return x
+}
+
+func c20BREvaluate(c *Ctx, psBR, psL *c20PS, evalBR *blindrot.Evaluator, BRK blindrot.MemBlindRotationEvaluationKeySet,
+	skBR *rlwe.SecretKey, sBR, sL []int64, ctL *rlwe.Ciphertext, fn c20Fn, F ring.Poly, Frows [][]uint64, scale float64,
+	ks []int, idxs []int, w int, cfg c20BRCfg, advSet map[uint64]bool, requestedUnion map[string]map[uint64]bool) {
+
+	N, NL := psBR.N(), psL.N()
+	twoN := uint64(2 * N)
+	lq, lp := len(psBR.Q)-1, len(psBR.P)-1
+	llq := len(psL.Q) - 1
+	QLb := c20ProdBig(psL.Q)
+
+	var log []string
+	brkLog := c20BRKLog{inner: BRK, log: &log}
+	tpm := map[int]*ring.Poly{}
+	for _, i := range idxs {
+		tpm[i] = &F
+	}
+	inRows := psL.ctPolys(ctL, llq)
+	var res map[int]*rlwe.Ciphertext
+	var err error
+	out := Try(func() string {
+		res, err = evalBR.Evaluate(ctL, tpm, brkLog)
+		if err != nil {
+			return "err"
+		}
+		return "ok"
+	})
+	c.Count("br:evaluate=" + out)
+	c.Count("br:fn=" + fn.name)
+	c.Count(fmt.Sprintf("br:slots=%d/%d ntt=%v", len(idxs), NL, ctL.IsNTT))
+	{
+		key, detail := "blindrot-panic", ""
+		if out != "ok" {
+			detail = fmt.Sprintf("Evaluate -> %s (BR moduli %d, LWE moduli %d)", out, len(psBR.Q), len(psL.Q))
+			if len(psL.Q) > len(psBR.Q) {
+				key = "blindrot-lwe-level-scratch"
+			}
+		}
+		c.Probe("blindrot_no_panic", fmt.Sprintf("n=%d nl=%d nQ=%d nQlwe=%d seed=%d line=%d", N, NL, len(psBR.Q), len(psL.Q), c.Seed, c.N), key, detail)
+		if out != "ok" {
+			return
+		}
+	}
+
+	// ---- split the log per slot: "m0" (the level probe of Evaluate), then per slot "evk" + operations ----
+	var perSlot [][]string
+	for i, ev := range log {
+		if i == 0 {
+			continue // GetBlindRotationKey(0) at the top of Evaluate
+		}
+		if ev == "evk" {
+			perSlot = append(perSlot, nil)
+			continue
+		}
+		perSlot[len(perSlot)-1] = append(perSlot[len(perSlot)-1], ev)
+	}
+	logOut := make([]string, len(perSlot))
+	for i := range perSlot {
+		if len(perSlot[i]) == 0 {
+			logOut[i] = "-"
+		} else {
+			logOut[i] = strings.Join(perSlot[i], ",")
+		}
+	}
+	lweArgs := fmt.Sprintf("n=%d ql=%s nl=%d c0=%s c1=%s idx=%s", N, Vec(psL.Q), NL, Mat(inRows[0]), Mat(inRows[1]), IVec(idxs))
+	c.Emit("br_sched "+lweArgs, strings.Join(logOut, "|"))
+
+	// ---- brk_keys_exact: every request is served by a generated key ----
+	cfgName := fmt.Sprintf("N=%d", N)
+	if requestedUnion[cfgName] == nil {
+		requestedUnion[cfgName] = map[uint64]bool{}
+	}
+	detail := ""
+	seenMul := map[int]int{}
+	for si := range perSlot {
+		for k := range seenMul {
+			delete(seenMul, k)
+		}
+		for _, ev := range perSlot[si] {
+			var x uint64
+			if n, _ := fmt.Sscanf(ev, "a%d", &x); n == 1 && ev[0] == 'a' {
+				requestedUnion[cfgName][x] = true
+				if !advSet[x] && detail == "" {
+					detail = fmt.Sprintf("Galois element %d requested but not generated", x)
+				}
+			} else if n, _ := fmt.Sscanf(ev, "m%d", &x); n == 1 && ev[0] == 'm' {
+				seenMul[int(x)]++
+				if int(x) >= len(BRK.BlindRotationKeys) && detail == "" {
+					detail = fmt.Sprintf("blind rotation key %d requested, %d generated", x, len(BRK.BlindRotationKeys))
+				}
+			}
+		}
+		for j := 0; j < NL && detail == ""; j++ {
+			if seenMul[j] != 1 {
+				detail = fmt.Sprintf("slot %d: key %d used %d times", si, j, seenMul[j])
+			}
+		}
+	}
+	c.Probe("brk_keys_exact", fmt.Sprintf("n=%d nl=%d seed=%d line=%d", N, NL, c.Seed, c.N), "brk-keys", detail)
+
+	// ---- exact tie of the outputs ----
+	par := c20ParTokens(psBR, lq, lp, w)
+	if !probesOnly() {
+		var sb strings.Builder
+		fmt.Fprintf(&sb, "br_eval %s %s f=%s", par, lweArgs, Mat(Frows))
+		evk, _ := BRK.GetEvaluationKeySet()
+		gl := append([]uint64{}, evk.GetGaloisKeysList()...)
+		sort.Slice(gl, func(i, j int) bool { return gl[i] < gl[j] })
+		fmt.Fprintf(&sb, " gk=%s", Vec(gl))
+		for i, g := range gl {
+			gk, _ := evk.GetGaloisKey(g)
+			k0, k1 := psBR.galoisKeyPolys(gk)
+			fmt.Fprintf(&sb, " k%d0=%s k%d1=%s", i, c20Polys(k0), i, c20Polys(k1))
+		}
+		fmt.Fprintf(&sb, " nb=%d", len(BRK.BlindRotationKeys))
+		for j, k := range BRK.BlindRotationKeys {
+			fmt.Fprintf(&sb, " %s", c20RGSWArgs(fmt.Sprintf("b%d_", j), psBR.rgswPolys(k)))
+		}
+		// positions (within idx) whose output ciphertext is tied: all of them now and then, a few otherwise
+		var tie []int
+		nt := 2
+		if c.Thorough() {
+			nt = 3
+			if c.rng.Intn(6) == 0 {
+				nt = len(idxs)
+			}
+		}
+		for _, pos := range []int{0, len(idxs) - 1, len(idxs) / 2, 1} {
+			dup := false
+			for _, x := range tie {
+				dup = dup || x == pos
+			}
+			if !dup && pos >= 0 && pos < len(idxs) && len(tie) < nt {
+				tie = append(tie, pos)
+			}
+		}
+		if nt == len(idxs) {
+			tie = tie[:0]
+			for i := range idxs {
+				tie = append(tie, i)
+			}
+		}
+		sort.Ints(tie)
+		fmt.Fprintf(&sb, " tie=%s", IVec(tie))
+		outs := make([]string, len(tie))
+		for i, pos := range tie {
+			outs[i] = c20Polys(psBR.ctPolys(res[idxs[pos]], lq))
+		}
+		c.Emit(sb.String(), strings.Join(outs, "|"))
+		c.Count(fmt.Sprintf("br_eval:tied-slots=%d", len(tie)))
+	}
+
+	// ---- probes per slot ----
+	// intended exponent: b~[idx] + (A*S)[idx] in Z_2N[X]/(X^NL+1), A the switched mask (odd or zero), S the LWE secret
+	r := psL.params.RingQ().AtLevel(llq)
+	c0p, c1p := r.NewPoly(), r.NewPoly()
+	for k := 0; k <= llq; k++ {
+		copy(c0p.Coeffs[k], inRows[0][k])
+		copy(c1p.Coeffs[k], inRows[1][k])
+	}
+	c0b := make([]*big.Int, NL)
+	c1b := make([]*big.Int, NL)
+	for i := 0; i < NL; i++ {
+		c0b[i], c1b[i] = new(big.Int), new(big.Int)
+	}
+	r.PolyToBigint(c0p, 1, c0b)
+	r.PolyToBigint(c1p, 1, c1b)
+	A := make([]int64, NL)
+	B := make([]int64, NL)
+	for i := 0; i < NL; i++ {
+		A[i] = int64(c20ModSwitch(c1b[i], QLb, twoN, true))
+		B[i] = int64(c20ModSwitch(c0b[i], QLb, twoN, false))
+	}
+	AS := make([]int64, NL)
+	for i := 0; i < NL; i++ {
+		for j := 0; j < NL; j++ {
+			k := i + j
+			if k >= NL {
+				AS[k-NL] -= A[i] * sL[j]
+			} else {
+				AS[k] += A[i] * sL[j]
+			}
+		}
+	}
+	// Galois/external-product counts for the noise bound
+	nOps := 0
+	for _, ev := range perSlot[0] {
+		_ = ev
+		nOps++
+	}
+	fast := lp == -1 && lq == 0 && psBR.Q[0]>>29 == 0
+	shape := c20Shape(BRK.BlindRotationKeys[0])
+	dsum, recomb := psBR.digitSum(lq, lp, w, shape, fast)
+	bep := psBR.extProdNoiseBound(lq, lp, dsum, c20L1(sBR))
+	Qb := c20ProdBig(psBR.Q)
+	Fc := make([]*big.Int, N)
+	for i := 0; i < N; i++ {
+		col := make([]uint64, lq+1)
+		for k := range col {
+			col[k] = Frows[k][i]
+		}
+		Fc[i] = c20CRTCentered(col, psBR.Q[:lq+1])
+	}
+	rot := func(e int64) []*big.Int {
+		out := make([]*big.Int, N)
+		ee := int(((e % int64(twoN)) + int64(twoN)) % int64(twoN))
+		for i := 0; i < N; i++ {
+			k := (i + ee) % (2 * N)
+			if k < N {
+				out[k] = new(big.Int).Set(Fc[i])
+			} else {
+				out[k-N] = new(big.Int).Neg(Fc[i])
+			}
+		}
+		return out
+	}
+	hL1 := c20L1(sL)
+	for si, idx := range idxs {
+		eStar := B[idx] + AS[idx]
+		// classes of mask coefficients the code treats differently from their value
+		minusOne, zero := false, false
+		// the slot mask: coefficient j multiplies s_j
+		for j := 0; j < NL; j++ {
+			// a_slot[j] = +-A[(idx - j) mod NL]
+			var v int64
+			if j <= idx {
+				v = A[idx-j]
+			} else {
+				v = -A[NL+idx-j]
+			}
+			v = ((v % int64(twoN)) + int64(twoN)) % int64(twoN)
+			if sL[j] != 0 {
+				if v == int64(twoN)-1 {
+					minusOne = true
+				}
+				if v == 0 {
+					zero = true
+				}
+			}
+		}
+		bound := new(big.Int).Mul(bep, big.NewInt(int64(len(perSlot[si])+1)))
+		phase := psBR.phaseBig(res[idx], skBR, lq)
+		want := rot(eStar)
+		noise := c20DistModQ(phase, want, Qb)
+		key := "blindrot-exponent"
+		switch {
+		case lp == -1:
+			key = "rgsw-enc-nop-montgomery"
+		case fast && w == 0:
+			key = "extprod32-zero-mask"
+		case !recomb:
+			key = "base2-digit-count"
+		case minusOne:
+			key = "blindrot-dlog-minus-one"
+		case zero:
+			key = "blindrot-dlog-zero"
+		}
+		detail := ""
+		if new(big.Int).Lsh(bound, 2).Cmp(Qb) >= 0 && key == "blindrot-exponent" {
+			c.Count("blindrot_exponent:vacuous-bound")
+		} else if noise.Cmp(bound) > 0 {
+			detail = fmt.Sprintf("slot=%d exponent=%d noise=%s bound=%s logQ=%d minusOne=%v zero=%v", idx, ((eStar%int64(twoN))+int64(twoN))%int64(twoN), noise, bound, Qb.BitLen(), minusOne, zero)
+		}
+		pa := fmt.Sprintf("%s nl=%d fn=%s slot=%d k=%d hw=%d seed=%d line=%d", par, NL, fn.name, idx, ks[idx], hL1, c.Seed, c.N)
+		c.Probe("blindrot_exponent", pa, key, detail)
+		if key == "blindrot-dlog-minus-one" || key == "blindrot-dlog-zero" {
+			c.Count("blindrot_exponent:class=" + key)
+		}
+
+		// blindrot_lookup: the constant coefficient is f at a grid point within the drift of the modulus switch
+		// of the ideal one: |k' - k| <= 1/2 + (3/2)||s||_1 + 1, and there the value is scale*f(x_k') up to the noise.
+		drift := int((1 + 3*hL1 + 1) / 2)
+		drift++
+		ok := false
+		kIdeal := ks[idx]
+		for d := -drift; d <= drift && !ok; d++ {
+			kk := kIdeal + d
+			x := (float64(kk)/float64(N/2)*(fn.b-fn.a) + fn.b + fn.a) / 2
+			var y float64
+			// exponents wrap negacyclically: outside [-N/2, N/2) the look-up returns -f of the reflected point
+			kw := ((kk+N)%(2*N)+2*N)%(2*N) - N // in [-N, N)
+			sg := 1.0
+			if kw >= N/2 {
+				kw -= N
+				sg = -1
+			} else if kw < -N/2 {
+				kw += N
+				sg = -1
+			}
+			x = (float64(kw)/float64(N/2)*(fn.b-fn.a) + fn.b + fn.a) / 2
+			y = sg * fn.f(x)
+			wantF := new(big.Float).Mul(big.NewFloat(scale), big.NewFloat(y))
+			wi, _ := wantF.Int(nil)
+			dd := new(big.Int).Sub(phase[0], wi)
+			dd.Mod(dd, Qb)
+			if dd.Cmp(new(big.Int).Rsh(Qb, 1)) > 0 {
+				dd.Sub(dd, Qb)
+			}
+			dd.Abs(dd)
+			if dd.Cmp(new(big.Int).Add(bound, big.NewInt(2))) <= 0 {
+				ok = true
+			}
+		}
+		key2 := "blindrot-lookup"
+		switch {
+		case lp == -1:
+			key2 = "rgsw-enc-nop-montgomery"
+		case fast && w == 0:
+			key2 = "extprod32-zero-mask"
+		case !recomb:
+			key2 = "base2-digit-count"
+		case kIdeal == N/2 && !fn.odd:
+			key2 = "testpoly-right-endpoint"
+		}
+		d2 := ""
+		if new(big.Int).Lsh(bound, 2).Cmp(Qb) >= 0 && key2 == "blindrot-lookup" {
+			c.Count("blindrot_lookup:vacuous-bound")
+		} else if !ok {
+			d2 = fmt.Sprintf("slot=%d k=%d drift<=%d constant coefficient=%s bound=%s", idx, kIdeal, drift, phase[0], bound)
+		}
+		// the exact end point: f(b) itself (no drift allowance towards the wrap-around)
+		c.Probe("blindrot_lookup", pa, key2, d2)
+	}
+}
